@@ -87,3 +87,25 @@ Theorem quantised_point_moves : forall (s : rstate f32) (vb : viewbox) (pal : li
     S * / 128 + 7 * u32 * (Rabs (S * (V q - MN)) + Rabs (S * (V x - MN))) + 2 * / IZR (2 ^ 150).
 Proof. exact QuantF.quantised_point_moves. Qed.
 Print Assumptions quantised_point_moves.
+
+(* ---- accumulation through the pen (proofs/Drift.v), over the SVG path semantics that the renderer's geometry realises
+   (C05): two operation lists with the same operations whose arguments differ by at most d keep the pen and the sub-path
+   start within e + n*d per coordinate after n operations (an absolute operation resets the difference to d, a relative
+   one adds d), whatever the smooth-curve state; for low-resolution quantisation d = 1/128 (quantize_close).  Float
+   rounding of the renderer is not part of this statement. ---- *)
+From IVG Require Import SvgPath Drift.
+
+Theorem path_drift : forall ops ops' st st' e d, 0 <= d -> 0 <= e ->
+  Forall2 (fun x y => fst x = fst y /\ args_close d (snd x) (snd y)) ops ops' ->
+  close e (p_pen st) (p_pen st') -> close e (p_start st) (p_start st') ->
+  close (e + INR (length ops) * d) (p_pen (fst (svg_run st ops))) (p_pen (fst (svg_run st' ops'))) /\
+  close (e + INR (length ops) * d) (p_start (fst (svg_run st ops))) (p_start (fst (svg_run st' ops'))).
+Proof. exact Drift.run_drift. Qed.
+Print Assumptions path_drift.
+
+Theorem quantised_path_drift : forall ops ops' start,
+  Forall2 (fun x y => fst x = fst y /\ args_close (/ 128) (snd x) (snd y)) ops ops' ->
+  let st0 := mkP start start KNone start in
+  close (INR (length ops) / 128) (p_pen (fst (svg_run st0 ops))) (p_pen (fst (svg_run st0 ops'))).
+Proof. exact Drift.quantised_path_drift. Qed.
+Print Assumptions quantised_path_drift.
